@@ -2,9 +2,9 @@
 
 # model .vo files the extraction depends on (relative to coq/)
 MODEL_VO = ['gen/Consts.vo', 'gen/CrcTables.vo', 'model/Bytes.vo', 'model/Codec.vo', 'model/Order.vo', 'model/Crc.vo',
-            'model/Block.vo', 'model/Writer.vo', 'model/WriteLoop.vo', 'spec/Leb128.vo', 'spec/Parse.vo', 'model/Reader.vo', 'model/Verify.vo', 'model/Compress.vo', 'model/Heap.vo', 'model/Merger.vo', 'model/Sorter.vo']
+            'model/Block.vo', 'model/Writer.vo', 'model/WriteLoop.vo', 'spec/Leb128.vo', 'spec/Parse.vo', 'model/Reader.vo', 'model/Verify.vo', 'model/Compress.vo', 'model/Heap.vo', 'model/Merger.vo', 'model/Sorter.vo', 'model/Fileset.vo']
 # OCaml modules of the driver, in link order
-OCAML_MODULES = ['common', 'gen', 'enc', 'c16', 'wr', 'c20', 'rd', 'c19', 'c17', 'c12', 'c15', 'mg', 'so', 'main']
+OCAML_MODULES = ['common', 'gen', 'enc', 'c16', 'wr', 'c20', 'rd', 'c19', 'c17', 'c12', 'c15', 'mg', 'so', 'fs', 'main']
 C_VARIANTS_SETUP = ('all',)
 EXTRA_BUILDS = []
 COQ_TIMEOUT = 3000
@@ -105,6 +105,15 @@ PROPS = {
                         'qsort: any function returning a key-sorted permutation (not assumed stable); the engine therefore compares merged values as multisets of atoms',
                         'pools: the model is the sequential view; that pooled runs give the same entries is checked by running pools 0..8 (schedules: C13)'],
         'explanation': 'Implementation vs model/Sorter.v vs specification (each distinct key once, ascending, value = fold of exactly the values added) over add sequences x max_memory (1 .. all in memory, spill-rule boundaries) x pools 0..8 x {iterator, mtbl_sorter_write}; mkstemp templates must lie in the configured directory; number of spills must equal the model\'s; add/write after iteration must be refused.',
+    },
+    'C07': {
+        'engines': [{'name': 'fs', 'timeout_quick': 600, 'timeout_thorough': 7200}],
+        'trusted_base': ['clock shim: fileset.c compiled with -Dclock_gettime=vp_clock_gettime (driver-controlled monotonic clock, +1 ns per reading)', 'setfile mtimes forced strictly increasing with utimes; filename/reader filter callbacks in ocaml/stubs.c'],
+        'assumptions': ['every reading of the monotonic clock is strictly later than the previous one (the code uses the reading as a generation stamp; observation O4)',
+                        'setfile change detection = (inode, mtime in seconds): each rewrite gets a later mtime; setfile lines are distinct',
+                        '"more than the interval has elapsed" is evaluated on whole seconds, as the code and the man page do (observation O5)',
+                        'PARTIAL: T07a_statement (no use of destroyed readers, all histories) is stated and evaluated on the history that crashed the pinned tree; T07c (no reload while iterators are open; reload when due/requested; NEVER) is proved'],
+        'explanation': 'State-machine model of fileset.c + my_fileset.c over an abstract world (setfile, files, clock). Engine fs runs random and directed histories (setfile rewrites with relative/absolute/missing/not-a-table lines, file creation/deletion, clock advances around the interval, reload, reload_now, iterators opened early and drained late, dups with filters and intervals 0/n/NEVER, destruction in any order) on the real code and the model and compares the set of tables every iterator sees.',
     },
     'C12': {
         'engines': [{'name': 'c12', 'timeout_quick': 600, 'timeout_thorough': 7200}, {'name': 'c17', 'timeout_quick': 600, 'timeout_thorough': 7200}],
